@@ -2,7 +2,7 @@
     Property theorems only. *)
 From Coq Require Import Reals List ZArith.
 From Interval Require Import Real.Xreal Interval.Interval Eval.Prog Eval.Tree Eval.Eval.
-From FeosVerif Require Import ProgSem ParamLookup Canon CanonDeriv AD.
+From FeosVerif Require Import ProgSem ProgSemBig ParamLookup Canon CanonDeriv AD.
 
 (** A sub-model extracted with [subset] and a model built directly from the same records with the
     same options whose regenerated programs are syntactically identical denote the same function:
@@ -24,8 +24,8 @@ Print Assumptions C09_subset_lookup.
 (** The verified evaluator encloses the exact value of a program at dyadic inputs: enclosures of the two
     sides of an invariance case that do not intersect prove that the invariance fails at that state. *)
 Theorem C09_enclosure_sound : forall prec P inp k,
-  contains (I.convert (nth k (evalI prec P inp) I.nai)) (out_ext P (inputs_R inp) k).
-Proof. exact evalI_correct. Qed.
+  contains (IB.convert (nth k (evalIB prec P inp) IB.nai)) (out_ext P (inputs_R inp) k).
+Proof. exact evalIB_correct. Qed.
 Print Assumptions C09_enclosure_sound.
 
 (** Relabelling and zero-mole padding, for ALL states.  Both regenerated programs read selections [piA], [piB] of one
